@@ -35,6 +35,7 @@ mod stream;
 mod outline;
 mod getters;
 mod builders;
+mod macros;
 mod retry_options;
 
 fn main() {
@@ -60,6 +61,7 @@ fn main() {
         "outline" => outline::run(&text),
         "getters" => getters::run(&lines),
         "builders" => builders::run(&lines),
+        "macros" => macros::run(),
         m => panic!("unknown mode {m}"),
     }
 }
